@@ -35,6 +35,7 @@ AsmContext::AsmContext() :
   list_output            { nullptr },
   list                   { nullptr },
   address                { 0 },
+  address_check          { 0 },
   segment                { 0 },
   pass                   { 1 },
   instruction_count      { 0 },
@@ -92,6 +93,7 @@ void AsmContext::init()
   cpu_list_index = -1;
 
   address           = 0;
+  address_check     = 0;
   instruction_count = 0;
   code_count        = 0;
   data_count        = 0;
@@ -210,6 +212,24 @@ int AsmContext::assemble()
   while (true)
   {
     if (error_count > 0) { return -1; }
+
+    // The location counter is 32 bit. Only .org moves it backwards, so if
+    // it is lower than it was before the last statement it wrapped around.
+    // A statement that ends exactly at 2^32 leaves it at 0.
+    uint64_t address_now = (uint32_t)address;
+
+    if (address_now == 0 && address_check != 0)
+    {
+      address_now = 0x100000000ULL;
+    }
+
+    if (address_now < address_check)
+    {
+      print_error(this, "Address wrapped around past 0xffffffff");
+      return -1;
+    }
+
+    address_check = address_now;
 
     token_type = tokens_get(this, token, TOKENLEN);
 
